@@ -170,6 +170,16 @@ def run_check(prop, tier, seed):
             else:
                 violations.append(f)
 
+    if os.environ.get('VERIF_TRIAGE'):
+        hist = {}
+        for v in violations:
+            d = v.get('detail', {})
+            k = v.get('kind', '') + ':' + (str(d.get('what', '')).split(' at ')[0].split(':')[0][:60] if v.get('kind') == 'oracle'
+                                          else '%s#%s' % (d.get('group'), (d.get('path') or [0, 0, 0])[-1]))
+            hist.setdefault(k, []).append(v)
+        for k, vs in sorted(hist.items(), key=lambda kv: -len(kv[1])):
+            print('TRIAGE %6d %s   e.g. %s | %s' % (len(vs), k, vs[0].get('case', '')[:150], json.dumps(vs[0].get('detail'))[:300]))
+
     # 3. decide
     status = 0
     replay_paths = []
